@@ -143,9 +143,10 @@ def main(argv=None):
                 kresults = kani.run_many(sc, jobs, logdir, min(a.jobs, 3) if heavy else a.jobs)
                 # counterexamples for failed harnesses
                 from .replay import kani_counterexample
+                known_obs = set(k.get("obligation") for k in load_known() if k.get("property") == pid)
                 for ob in kjobs + run_comp:
                     r = kresults.get(ob["harness"])
-                    if r and r["status"] == "failed":
+                    if r and r["status"] == "failed" and ob["name"] not in known_obs:
                         r["cex"] = kani_counterexample(sc, ob, logdir)
         except AnchorLost as e:
             undecided.append("overlay: anchor lost: %s" % e)
@@ -234,7 +235,7 @@ def main(argv=None):
         violated.append(o)
 
     # ---------------- evidence ----------------
-    complete = [o for o in obligations if o["lane"] in ("V", "L", "K")]
+    complete = [o for o in obligations if o["lane"] in ("V", "L", "K") and o["status"] != "known-finding"]
     bounded = [o for o in obligations if o["lane"] == "Kb"]
     n_ob = len(complete)
     n_dis = len([o for o in complete if o["status"] == "discharged"])
